@@ -646,7 +646,37 @@ impl Interp {
 					l.steps_while_locked += 1;
 				}
 				let before = self.pipeline().0;
-				let r = self.db().process_commits();
+				let r = if self.locked.is_some() {
+					// With a reader lock held by this harness the step must not block (the removal
+					// has to be postponed): run it on a helper thread so that a block is detected
+					// deterministically instead of hanging the check.
+					let db = self.db.as_ref().unwrap();
+					let (tx, rx) = std::sync::mpsc::channel();
+					let mut blocked = false;
+					let res = std::thread::scope(|sc| {
+						sc.spawn(|| {
+							let _ = tx.send(db.process_commits());
+						});
+						match rx.recv_timeout(std::time::Duration::from_secs(20)) {
+							Ok(r) => Some(r),
+							Err(_) => {
+								blocked = true;
+								// release the lock so that the helper can finish
+								if let Some(l) = self.locked.take() {
+									l.unlock();
+								}
+								let _ = rx.recv_timeout(std::time::Duration::from_secs(60));
+								None
+							},
+						}
+					});
+					if blocked {
+						fail!("process_commits-blocked-by-reader-lock", "process_commits did not return while a tree reader lock was held (the dereference was not postponed but waits for the reader)")
+					}
+					res.unwrap()
+				} else {
+					self.db().process_commits()
+				};
 				if self.lib("process_commits", r)?.is_none() {
 					return Ok(StepOut::Faulted("process_commits".into()))
 				}
